@@ -261,6 +261,8 @@ func (ex *Exec) SliceBytes(st *State, v Val) *sym.Term {
 		}
 	case Nil:
 		return sym.ConstStr(sym.Bytes, "")
+	case *Choice:
+		return sym.Ite(x.Cond, ex.SliceBytes(st, x.A), ex.SliceBytes(st, x.B))
 	}
 	ex.fail("SliceBytes of %s", ValString(v))
 	return sym.Fresh(sym.Bytes, "bytes", TaintOf(v))
